@@ -213,3 +213,9 @@ neutral("version-eq-tuple", ["C04", "C16", "C03"],
             "        (self.major, self.minor, self.patch) == (other.major, other.minor, other.patch)\n            && self.pre_release == other.pre_release"))
 neutral("min-version-match", ["C11", "C06"],
         (R, "        candidates.into_iter().find(|v| self.satisfies(v))", "        for v in candidates {\n            if self.satisfies(&v) {\n                return Some(v);\n            }\n        }\n        None"))
+
+# ---- C17 location()
+mutant("c17-location-counts-cr", ["C17"], (L, "        let line_number = bytecount::count(prefix, b'\\n');", "        let line_number = bytecount::count(prefix, b'\\r');"))
+mutant("c17-location-column-from-zero", ["C17"], (L, "            .map(|pos| self.offset() - pos)\n            .unwrap_or(0);", "            .map(|pos| self.offset() - pos - 1)\n            .unwrap_or(0);"))
+mutant("c17-location-first-newline", ["C17"], (L, "        let line_begin = prefix\n            .iter()\n            .rev()\n            .position(|&b| b == b'\\n')", "        let line_begin = prefix\n            .iter()\n            .position(|&b| b == b'\\n')"))
+neutral("location-rposition", ["C17", "C06"], (L, "        let line_begin = prefix\n            .iter()\n            .rev()\n            .position(|&b| b == b'\\n')\n            .map(|pos| self.offset() - pos)\n            .unwrap_or(0);", "        let line_begin = prefix\n            .iter()\n            .rposition(|&b| b == b'\\n')\n            .map(|pos| pos + 1)\n            .unwrap_or(0);"))
